@@ -1,6 +1,6 @@
 SPECIFICATION Spec
 CONSTANTS
-  Names <- MC_NamesWide
+  Names <- MC_NamesSim
   Numbers <- MC_NumbersWide
   Strings <- MC_Strings2
   BinOps <- MC_OpsWide
@@ -10,7 +10,7 @@ CONSTANTS
   MinUnits = 5
   MaxDepth = 2
   MaxActs = 1
-  AllowNeg = TRUE
+  Signs = {"-", "+"}
   AllowCall = TRUE
   AllowList = TRUE
   AllowGroup = TRUE
